@@ -5864,10 +5864,16 @@ impl<'a> Tyck<'a> for TyEnvT<su::TermId> {
                     std::panic::Location::caller(),
                 )?;
                 let (binder, binder_ty) = {
-                    let ss::Type::App(ret_app_body_ty) = tycker.type_filled_k(&binder_ty)? else {
-                        unreachable!()
+                    // the binder names the fixed point itself, so its type must be `Thk B`
+                    let Some(body_ty) = binder_ty.destruct_thk_app(tycker) else {
+                        tycker.err_k(
+                            TyckError::TypeExpected {
+                                expected: "`Thk _`".to_string(),
+                                found: binder_ty,
+                            },
+                            std::panic::Location::caller(),
+                        )?
                     };
-                    let ss::App(_ret_ty, body_ty) = ret_app_body_ty;
                     (binder, body_ty)
                 };
                 let body_out_ann = TyEnvT::new(binder_elaboration.info.clone(), body)
